@@ -107,6 +107,7 @@ def e2e_case(seed):
     from rex.node import BaseNode
 
     rng = random.Random(seed)
+    INNAME = ["s"]
 
     @struct.dataclass
     class Out(Base):
@@ -141,7 +142,7 @@ def e2e_case(seed):
             return Out(jnp.array(0, dtype=jnp.int32))
 
         def step(self, ss):
-            i = ss.inputs["s"]
+            i = ss.inputs[INNAME[0]]
             acc = (3 * ss.state.n + jnp.sum(i.data.a * jnp.arange(1, i.data.a.shape[0] + 1))) % 1000003
             return ss.replace(state=St(acc.astype(jnp.int32))), Out(acc.astype(jnp.int32))
 
@@ -159,7 +160,10 @@ def e2e_case(seed):
     dmax = dmin + rng.choice([0.6, 1.0, 1.4, 2.4]) / rate_s
     d = rng.choice([dmin, dmax, rng.uniform(dmin, dmax)])
     window = rng.randint(1, 3)
-    via = rng.choice(["distribution", "init_delays"])
+    via = rng.choice(["distribution", "init_delays", "init_delays_lowered"])
+    # the connection may be made under an input name of its own; init_delays is keyed by input name
+    INNAME[0] = rng.choice(["s", "s", "sender_in"])
+    inname = INNAME[0]
     comp_s = Normal(0.2 / rate_s, 0.35 / rate_s) if jitter else Deterministic(round(0.13 / rate_s, 4))
     pin = round(rng.uniform(dmin, dmax), 3)
     tmax = 25.0 / rate_r
@@ -168,7 +172,7 @@ def e2e_case(seed):
         s = Sender(name="s", rate=rate_s, delay_dist=comp_s)
         r = Receiver(name="r", rate=rate_r, delay_dist=Deterministic(round(0.1 / rate_r, 4)), delays=delays)
         sup = Sup(name="sup", rate=rate_r, delay_dist=Deterministic(0.001))
-        r.connect(s, window=window, blocking=False, delay_dist=conn_dist, delay=pin)
+        r.connect(s, window=window, blocking=False, delay_dist=conn_dist, delay=pin, **({} if inname == "s" else {"name": inname}))
         sup.connect(r, window=1, blocking=False, delay_dist=Deterministic(0.001))
         nodes = {"s": s, "r": r, "sup": sup}
         cg = generate_graphs(nodes, tmax, rng=jax.random.PRNGKey(seed % 1000), num_episodes=1)
@@ -178,13 +182,17 @@ def e2e_case(seed):
         gs = jax.jit(g.rollout)(gs)
         rec = gs.aux["record"].nodes["r"].steps
         srec = gs.aux["record"].nodes["s"].steps
-        return dict(rseq=onp.asarray(rec.seq).tolist(), ts_start=onp.asarray(rec.ts_start).astype(float).tolist(), seq=onp.asarray(rec.inputs["s"].seq).tolist(),
-                    data=onp.asarray(rec.inputs["s"].data.a).tolist(), state=onp.asarray(rec.state.n).tolist(), out=onp.asarray(rec.output.a).tolist(),
+        return dict(rseq=onp.asarray(rec.seq).tolist(), ts_start=onp.asarray(rec.ts_start).astype(float).tolist(), seq=onp.asarray(rec.inputs[inname].seq).tolist(),
+                    data=onp.asarray(rec.inputs[inname].data.a).tolist(), state=onp.asarray(rec.state.n).tolist(), out=onp.asarray(rec.output.a).tolist(),
                     s_end=onp.asarray(cg.vertices["s"].ts_end)[0].astype(float).tolist(), s_seq=onp.asarray(cg.vertices["s"].seq)[0].tolist())
 
     static = run(Deterministic(float(d)))
     if via == "distribution":
         train = run(TrainableDist.create(float(d), dmin, dmax))
+    elif via == "init_delays":
+        train = run(TrainableDist.create(dmin, dmin, dmax), delays={inname: float(d)})
     else:
-        train = run(TrainableDist.create(dmin, dmin, dmax), delays={"s": float(d)})
-    return dict(rate_s=rate_s, rate_r=rate_r, jitter=jitter, dmin=dmin, dmax=dmax, d=d, window=window, via=via, static=static, train=train)
+        # created at a larger delay, lowered through init_delays: the recorded graph must still be the one at the minimal delay
+        d0 = float(rng.uniform(float(d), dmax)) if d < dmax else dmax
+        train = run(TrainableDist.create(d0, dmin, dmax), delays={inname: float(d)})
+    return dict(rate_s=rate_s, rate_r=rate_r, jitter=jitter, dmin=dmin, dmax=dmax, d=d, window=window, via=via + ("" if inname == "s" else f" (input name '{inname}')"), static=static, train=train)
